@@ -172,6 +172,8 @@ def ladder(ctx, L):
             return c['composite'] and c.get('kind', 'struct') == 'struct'
         if s == 'codec_kind.is_union(type(rhs))':
             return c['composite'] and c.get('kind', 'struct') == 'union'
+        if isinstance(t, ast.Constant):
+            return bool(t.value)
         if isinstance(t, ast.BoolOp):
             vs = [val(v, c) for v in t.values]
             return all(vs) if isinstance(t.op, ast.And) else any(vs)
